@@ -634,7 +634,8 @@ class Env:
     __slots__ = ("m",)
 
     def __init__(self, m=()):
-        self.m = m if isinstance(m, tuple) else tuple(sorted(m.items()))
+        # keys: variable ids, or "m:<access path>" for a struct field a client has established a fact about
+        self.m = m if isinstance(m, tuple) else tuple(sorted(m.items(), key=lambda kv: (isinstance(kv[0], str), kv[0])))
 
     def get(self, vid):
         for k, v in self.m:
@@ -675,6 +676,10 @@ def eval_abs(e, env):
         return eval_abs(e["y"], env)
     if k == "Bin" and e["op"] == ",":
         return eval_abs(e["y"], env)
+    if k == "Member" and env.m and isinstance(env.m[-1][0], str):
+        ap = access_path(e)
+        if ap:
+            return env.get("m:" + ap)
     return TOP
 
 
@@ -758,8 +763,31 @@ def assigned_vars(e):
                 yield l, None, "&"
 
 
+def _drop_member_facts(e, env):
+    """field facts ("m:..." keys, created only by a client's env_refine) do not survive a store through a pointer or a
+    member, nor a call that receives a pointer it may write through (aliases are not tracked, so all of them go)"""
+    if not (env.m and isinstance(env.m[-1][0], str)):
+        return env
+    kill = False
+    for n in walk(e):
+        k = n.get("k")
+        if k == "Bin" and n["op"] in ASSIGN_OPS and strip(n["x"]).get("k") != "Ref":
+            kill = True
+        elif k == "Un" and n["op"] in ("pre++", "pre--", "post++", "post--") and strip(n["e"]).get("k") != "Ref":
+            kill = True
+        elif k == "Call" and n.get("callee") != "utilAssert":
+            for a in n["a"]:
+                sa = strip(a)
+                if sa.get("p") and not sa.get("pc") and int_val(sa) is None:
+                    kill = True
+    if kill:
+        return Env({k_: v for k_, v in env.m if not isinstance(k_, str)})
+    return env
+
+
 def env_after_eval(e, env):
     """update env for the side effects of evaluating e"""
+    env = _drop_member_facts(e, env)
     for l, rhs, op in assigned_vars(e):
         if l.get("rk") not in ("local", "param"):
             continue
@@ -859,7 +887,10 @@ def run_paths(func, client, max_states=200000, init_env=None):
                 cs2 = client.assume(c, lab, cs1, env1, node)
                 if cs2 is None:
                     continue
-                outs.append((s, cs2, refine(c, lab, env1)))
+                env2 = refine(c, lab, env1)
+                if hasattr(client, "env_refine"):
+                    env2 = client.env_refine(c, lab, cs1, env1, env2)
+                outs.append((s, cs2, env2))
         elif kind == "switch":
             c = node.e
             cs1 = client.eval(c, cs, env, node)
